@@ -4,7 +4,6 @@
 package core
 
 import (
-	"sync"
 	"fmt"
 	"go/ast"
 	"go/build"
@@ -14,6 +13,7 @@ import (
 	"path/filepath"
 	"sort"
 	"strings"
+	"sync"
 
 	"golang.org/x/tools/go/packages"
 	"golang.org/x/tools/go/ssa"
